@@ -13,7 +13,7 @@ P=/verif/seeded/$SID/patch.diff; [ -f /verif/seeded/$SID/patch.head.diff ] && P=
 git -C $WT apply $P || { echo "patch does not apply"; git -C /repo worktree remove --force $WT; exit 9; }
 rc=0
 for c in $CHECKS; do
-  out=$(cd /verif && VERIF_REPO=$WT VERIF_EVIDENCE_DIR=/tmp/st/ev.$SID.$$ ./check $c --tier ${TIER:-quick} 2>&1); r=$?
+  out=$(cd ${VERIF_HOME:-/verif} && VERIF_REPO=$WT VERIF_EVIDENCE_DIR=/tmp/st/ev.$SID.$$ ./check $c --tier ${TIER:-quick} 2>&1); r=$?
   echo "--- seed $SID check $c exit=$r"
   echo "$out" | grep -E "VIOLATION|UNDECIDED|rule=|key=|^  [a-z]|KNOWN|obligations" | head -${LINES_MAX:-12}
   [ $r -eq 1 ] && rc=1
